@@ -12,6 +12,7 @@ pub mod chmux_data;
 pub mod chmux_life;
 pub mod chmux_misc;
 pub mod chmux_peer;
+pub mod handles;
 pub mod iochan;
 pub mod robs;
 pub mod rtc;
